@@ -70,6 +70,10 @@ const SHEETS: &[&str] = &[
     "p { white-space: pre-wrap } ul { max-height: 0; overflow: hidden; } a { display: x-raw-dom }",
     "x{",
     "}}}{{{;;;",
+    // generated content on every kind of node (tables, rows, cells, lists, items, leaves, the root)
+    "*::before { content: \"\\201c\" } *::after { content: \"]\" }",
+    "table::after, tr::after, td::before, tbody::after { content: 'T' } li::before, ul::after, ol::before, dl::after, dt::after { content: \"\u{4e00}\" } img::after, br::after, hr::before, pre::after, a::after, sup::before { content: 'x y' }",
+    "p { height: 0.0pt; overflow: hidden } div { max-height: 0.50em; overflow-y: hidden } td { color: rgb( 1 , 2 , 3 ); background: rgb(300,0,0) } h2 { height: auto; overflow: visible }",
 ];
 
 pub fn check_total(case: &TotalCase, st: &mut Stats) -> Result<(), String> {
